@@ -121,9 +121,19 @@ type ex struct {
 	wasDirty bool
 	snapObj  unionstore.MemBufferSnapshot
 	snapBase map[string][]byte
+	sit      unionstore.Iterator // a SnapshotIter / SnapshotIterReverse kept open across writes of the staging levels
+	sitWant  []KV                // what it must yield: the staging-blind view at its creation
+	sitPos   int
 	fail     *failure
 }
 
+func (x *ex) closeSit() {
+	if x.sit != nil {
+		it := x.sit
+		x.sit = nil
+		protect(func() { it.Close() })
+	}
+}
 func (x *ex) setFail(name string, idx int, detail string) {
 	if x.fail == nil {
 		x.fail = &failure{name, idx, detail}
@@ -194,12 +204,13 @@ func execProgram(id int, p *Program, emit func(string)) (*failure, bool) {
 			x.stepRead(idx, o)
 		case "gflags", "dirty", "sseq", "len", "iterf", "riterf", "hist", "inspect":
 			x.stepExt(idx, o)
-		case "sget", "sbget", "snapnew", "snapget", "snapscan", "siter", "sriter":
+		case "sget", "sbget", "snapnew", "snapget", "snapscan", "siter", "sriter", "sitnew", "sitnext", "sitclose":
 			x.stepSnap(idx, o)
 		case "staging", "release", "cleanup", "cp", "revert":
 			x.stepSave(idx, o)
 		}
 	}
+	x.closeSit()
 	if emit != nil {
 		emit(fmt.Sprintf("END\t%d", id))
 	}
